@@ -65,8 +65,10 @@ def obligations():
     c10 = {o.ob_id: o for o in C10.obligations()}
     o41 = c12['O12.1-commit']; o41.ob_id = 'O4.1-commit'
     o44 = c10['O10.guard-proof-handler']; o44.ob_id = 'O4.4-long-fork-abort-gated'
+    o46 = c12['O12.2-new-child']; o46.ob_id = 'O4.6-child-inherits-reorg'
+    o46.desc = '[a child prove state still sits on the fork switch of its parent: a peer whose state is copied from it drops its stale filter-hash cache too] ' + o46.desc
     return [
-        o41,
+        o41, o46,
         KModelOb('O4.3-request-rebase', 'bprc', 'request_content', 'build_prove_request_content(_from_genesis) (real text): Some iff start strictly below last in number and not '
                  'above it in difficulty; <= last-N missing blocks => no samples, boundary = start difficulty, start re-based only onto the first remembered '
                  'header strictly below the start and within last-N of the tip; otherwise the sampled boundary / difficulties with the proven start', ex_bprc,
@@ -76,5 +78,5 @@ def obligations():
         KModelOb('O4.5-filter-cache-dropped', 'ups', 'update_prove_state_clears_cache', 'Peers::update_prove_state (real text, over the real PeerState text): a prove state that carries reorg '
                  'headers drops the peer\'s cached latest block filter hashes (they belong to the abandoned branch and would make the new chain\'s hashes be ignored); '
                  'without reorg headers the cache is kept; other peers untouched', ex_ups, 'arbitrary peer state, <=2 reorg headers, 2 peers', timeout=1200, mem_gb=10,
-                 min_covers=2, weight=3, cuts=['LatestBlockFilterHashes -> counter + cleared flag', 'DashMap -> array']),
+                 min_covers=3, weight=3, cuts=['LatestBlockFilterHashes -> counter + cleared flag', 'DashMap -> array']),
     ] + common.shared('C02', ['O2.6-body-semantic'], 'O4', 'after a batch of matched blocks is indexed the script numbers stand at the END of the batch range, so that a later rollback_to_block does not skip the script')
